@@ -231,7 +231,8 @@ func TestC18(t *testing.T) {
 			for k, i := range idx {
 				nh := fmt.Sprintf("hop%d.test", i)
 				if (i+k)%2 == 1 {
-					nh += ":" + strconv.Itoa(6000+i)
+					// explicit ports, the protocol defaults among them (an explicit :5060 stays 5060 for tls)
+					nh += ":" + strconv.Itoa([]int{5060, 6000 + i, 5061}[(i/2+k)%3])
 				}
 				tab[k] = c18Entry{Proto: protos[(i+k)%4], Pattern: c18Patterns[i], NextHop: nh}
 			}
@@ -371,7 +372,11 @@ func TestC18(t *testing.T) {
 			seen[p] = true
 			nh := fmt.Sprintf("h%d.hop", i)
 			if rapid.Bool().Draw(rt, "withport") {
-				nh += ":" + strconv.Itoa(rapid.IntRange(1, 65535).Draw(rt, "port"))
+				if rapid.Bool().Draw(rt, "defaultish port") {
+					nh += ":" + strconv.Itoa(rapid.SampledFrom([]int{5060, 5061}).Draw(rt, "port"))
+				} else {
+					nh += ":" + strconv.Itoa(rapid.IntRange(1, 65535).Draw(rt, "port"))
+				}
 			}
 			tab = append(tab, c18Entry{Proto: rapid.SampledFrom([]string{"udp", "tcp", "tls", "TLS", "Tls"}).Draw(rt, "proto"), Pattern: p, NextHop: nh})
 		}
